@@ -35,6 +35,7 @@ import (
 	"github.com/furiko-io/furiko/pkg/core/validation"
 	"github.com/furiko-io/furiko/pkg/execution/util/cron"
 	"github.com/furiko-io/furiko/pkg/execution/util/jobconfig"
+	"github.com/furiko-io/furiko/pkg/execution/util/parallel"
 	executionlister "github.com/furiko-io/furiko/pkg/generated/listers/execution/v1alpha1"
 	"github.com/furiko-io/furiko/pkg/runtime/controllercontext"
 )
@@ -473,8 +474,35 @@ func (v *Validator) ValidateParallelismSpec(spec *v1alpha1.ParallelismSpec, fldP
 		allErrs = append(allErrs, field.Required(fldPath, "must specify a parallelism type"))
 	}
 
+	// Every index must have its own identity, otherwise distinct indexes would
+	// share a task name and a status slot.
+	if len(allErrs) == 0 {
+		allErrs = append(allErrs, v.validateParallelIndexesDistinct(spec, fldPath)...)
+	}
+
 	allErrs = append(allErrs, v.ValidateParallelCompletionStrategy(spec.CompletionStrategy, fldPath.Child("completionStrategy"))...)
 
+	return allErrs
+}
+
+// validateParallelIndexesDistinct validates that all expanded indexes of the
+// ParallelismSpec are distinct and do not share the same index hash.
+func (v *Validator) validateParallelIndexesDistinct(spec *v1alpha1.ParallelismSpec, fldPath *field.Path) field.ErrorList {
+	allErrs := field.ErrorList{}
+	seen := make(map[string]int)
+	for i, index := range parallel.GenerateIndexes(spec) {
+		hash, err := parallel.HashIndex(index)
+		if err != nil {
+			allErrs = append(allErrs, field.InternalError(fldPath, err))
+			break
+		}
+		if other, ok := seen[hash]; ok {
+			detail := fmt.Sprintf("parallel indexes must be distinct, but indexes %v and %v share the same identity %v", other, i, hash)
+			allErrs = append(allErrs, field.Invalid(fldPath, spec, detail))
+			break
+		}
+		seen[hash] = i
+	}
 	return allErrs
 }
 
